@@ -102,9 +102,17 @@ impl DiscriminantType {
                     match exp {
                         Expr::Lit(lit) => {
                             if let Lit::Int(lit) = &lit.lit {
-                                counter = lit
-                                    .base10_parse()
-                                    .map_err(|error| syn::Error::new(lit.span(), error))?;
+                                counter = match lit.base10_parse::<i128>() {
+                                    Ok(i) => i,
+                                    Err(error) => {
+                                        // a `#[repr(u128)]` enum may declare discriminants above
+                                        // `i128::MAX`; they are kept as their bit pattern
+                                        match (&repr_type, lit.base10_parse::<u128>()) {
+                                            (Some(Self::U128), Ok(u)) => u as i128,
+                                            _ => return Err(syn::Error::new(lit.span(), error)),
+                                        }
+                                    },
+                                };
                             } else {
                                 return Err(syn::Error::new(lit.span(), "not an integer"));
                             }
@@ -158,7 +166,7 @@ impl DiscriminantType {
 
                 values.push(counter);
 
-                counter = counter.saturating_add(1);
+                counter = counter.wrapping_add(1);
             }
 
             if let Some(repr_type) = repr_type {
@@ -203,6 +211,15 @@ impl DiscriminantType {
                     Fields::Named(_) => quote!(Self::#variant_ident { .. }),
                     Fields::Unnamed(_) => quote!(Self::#variant_ident ( .. )),
                 };
+
+                if let Self::U128 = discriminant_type {
+                    // the value is the bit pattern of a `u128`
+                    let value = proc_macro2::Literal::u128_unsuffixed(value as u128);
+
+                    arms_token_stream.extend(quote!(#pattern => #value,));
+
+                    continue;
+                }
 
                 let abs = proc_macro2::Literal::u128_unsuffixed(value.unsigned_abs());
 
